@@ -514,6 +514,9 @@ def check_C05(tier, seed):
         if bad:
             fails += 1
             rep.violation(sig(c, trace_sig(c, bad)), {"case": encode_case(c), "at": bad[0], "impl_log": repr(bad[1]), "std_log": repr(bad[2])})
+    # groupby is a state machine of its own (Model/GroupBy.v, C16): its laziness is compared here as well
+    import check_c16
+    fails += check_c16.aspect_lazy(rep, rng, 300 * common.scale(rep) if tier == "quick" else 5000)
     spec_stage(rep, "C05", std_pairs)
     finish_with_model(rep, "C05", pairs, fails, proofs_ok)
     return rep.finish()
@@ -613,6 +616,16 @@ def check_faults(prop, tier, seed):
                                   {"case": encode_case(c), "why": "the stdlib counterpart fails at its use %d (%s) with the injected exception after items %r; "
                                    "asyncstdlib with the same failing use: outcome %r after items %r" % (ks, kind, ys, ro[:2], yi)})
     rep.notes["fault_plans"] = nplans
+    # groupby is a state machine of its own (Model/GroupBy.v, C16): its part of this property is checked here as well
+    import check_c16
+    ng = (150 * builtins.min(2, common.scale(rep))) if tier == "quick" else 3000
+    if prop == "C06":
+        fails += check_c16.aspect_faults(rep, rng, 2 * ng)
+    elif prop == "C04":
+        fails += check_c16.aspect_release(rep, rng, ng, cancel=False)
+        fails += check_c16.aspect_release(rep, rng, ng // 2, cancel=True)
+    elif prop == "C18":
+        fails += check_c16.aspect_release(rep, rng, ng, cancel=True)
     finish_with_model(rep, prop, pairs, fails, proofs_ok)
     return rep.finish()
 
